@@ -350,6 +350,29 @@ def main():
         if o[0] in ("child", "ichild"):
             return d[o[1]]
         return d[o[1]]
+    def c_tree(v):
+        if isinstance(v, (list, tuple)):
+            return "(TN [%s])" % "; ".join(c_tree(x) for x in v)
+        return "(TL (%d))" % int(v)
+
+    def c_nop(o):
+        REL = {">": "RGt", ">=": "RGe", "<": "RLt", "<=": "RLe", "=": "REq", "!=": "RNe"}
+        if o[0] in ("cols", "icols"):
+            return "(NCols %s)" % clist(list(o[1]), cs)
+        if o[0] in ("child", "ichild"):
+            return "(NChild %s)" % cs(o[1])
+        if o[0] == "ofilt":
+            return "(NOFilt %s %s (OConst (%d)))" % (cs(o[1]), REL[o[2]], o[3])
+        if o[0] == "ifilt":
+            return "(NIFilt %s %s (OConst (%d)))" % (cs(o[1]), REL[o[2]], o[3])
+        if o[0] == "slice":
+            sl = o[1]
+            f = lambda x: "None" if x is None else "(Some (%d))" % x  # noqa
+            return "(NSlice (mkSlice %s %s %s))" % (f(sl.start), f(sl.stop), f(sl.step))
+        return "(NInt (%d))" % o[1]
+    NTABLE = "(mkTable %s %s %s)" % (clist(["id", "in", "z"], cs), cs("in"), clist(["x", "y"], cs))
+    NROWS = clist([[a, [list(t) for t in b], c] for a, b, c in nrows], c_tree)
+    niter_cases, nspec_cases = [], []
     nested_stats = {"chains": 0, "after_child_filter": 0}
     for _ in range(150 if T == "quick" else 3000):
         ch = gen_nested_chain()
@@ -361,6 +384,8 @@ def main():
                 d = nested_apply(d, o)
             got, again = plain(list(d)), plain(list(d))
             want = nested_reference(ch)
+            niter_cases.append("(%s, %s, %s, (Some %s))" % (NTABLE, NROWS, clist(ch, c_nop), clist(got, c_tree)))
+            nspec_cases.append("(%s, %s, %s, %s)" % (NTABLE, NROWS, clist(ch, c_nop), clist(want, c_tree)))
             if got != want or again != want:
                 direct.append({"law": "normal form on a table with a nested sequence (generated chain)", "chain": repr(ch), "got": got,
                                "again": again, "want": want})
@@ -376,11 +401,14 @@ def main():
     r.extra["op_distribution"] = kinds
 
     groups = [("iter", "chk_iter", iter_cases, "list cname * list row * list op * option (list row)"),
-              ("spec", "chk_spec", spec_cases, "list cname * list row * list op * list row")]
+              ("spec", "chk_spec", spec_cases, "list cname * list row * list op * list row"),
+              ("nested_iter", "chk_niter", niter_cases, "ntable * list tree * list nop * option (list tree)"),
+              ("nested_spec", "chk_nspec", nspec_cases, "ntable * list tree * list nop * list tree")]
     mism = {}
     for name, chk, cases, ctype in groups:
         try:
-            bad = coq_eval_mismatches(PID + "_" + name, IMPORTS, chk, cases, ctype, shard=300)
+            bad = coq_eval_mismatches(PID + "_" + name, "NestedCases" if name.startswith("nested") else IMPORTS, chk, cases, ctype,
+                                      shard=300)
         except RuntimeError as e:
             r.violation({"kind": "correspondence-broken", "group": name, "error": str(e)[-1500:],
                          "theorem": "correspondence %s (model could not be evaluated)" % name}, found=False)
@@ -393,6 +421,13 @@ def main():
     r.cov["rule"] = ("a case is (table, operation chain over {[cond], [list of columns], [column], [int], [slice]}); distinct = distinct "
                      "(chain, table size); chains of length >= 1 are non-trivial")
     r.sample({"chain_case": iter_cases[200]})
+    if mism["nested_spec"]:
+        r.violation({"kind": "spec-invalid", "what": "Gallina nspec disagrees with the by-name reference (nested table)",
+                     "case": mism["nested_spec"][0], "theorem": "SPEC validation nspec"}, found=False)
+    if not direct and mism["nested_iter"]:
+        r.violation({"kind": "correspondence-broken", "theorem": "correspondence of IterData on a nested table with the Gallina model "
+                                                                 "Nested.niter (props/C17.v)",
+                     "case": mism["nested_iter"][0], "n_mismatches": len(mism["nested_iter"])}, found=False)
     if mism["spec"]:
         r.violation({"kind": "spec-invalid", "what": "Gallina spec_nf disagrees with the by-name reference", "case": mism["spec"][0],
                      "theorem": "SPEC validation spec_nf"}, found=False)
